@@ -744,6 +744,32 @@ def rule_walk(ctx, prop):
             rep.inst("stylua::format standard_filters(true)", None, cfg, ok=ok)
             if not ok:
                 rep.violation("stylua::format standard_filters-not-true", "standard_filters is not enabled", f.loc(), cfg)
+        # (4b) no other walker option narrows what is visited or which ignore files are read
+        allowed_wb = {"new", "add", "standard_filters", "hidden", "parents", "add_custom_ignore_filename", "add_ignore",
+                      "overrides", "build"}
+        nwb = 0
+        for b, t in f.calls():
+            c = callee(t)
+            if not c.startswith("ignore::WalkBuilder::"):
+                continue
+            nwb += 1
+            m = c.split("::")[-1]
+            if m not in allowed_wb:
+                rep.inst(f"stylua::format WalkBuilder::{m}", None, cfg, ok=False)
+                rep.violation(f"stylua::format unexpected-walker-option {m}",
+                              f"the directory walker is configured with WalkBuilder::{m}, which is not part of the documented "
+                              f"selection rules (standard filters, hidden files, ignore files of all parent directories, "
+                              f".styluaignore, --glob overrides)", f.loc(t["sp"]), cfg)
+            elif m == "parents":
+                a = t["args"][1]
+                ok = is_const(a) and a.get("v") is True
+                rep.inst("stylua::format parents(true)", None, cfg, ok=ok)
+                if not ok:
+                    rep.violation("stylua::format parents-not-true",
+                                  "WalkBuilder::parents is not the constant true: ignore files (.styluaignore, .gitignore) in "
+                                  "directories above a directory argument are no longer read in every run, so files they "
+                                  "exclude get formatted", f.loc(t["sp"]), cfg)
+        rep.floor("WalkBuilder configuration calls", nwb, 6, cfg)
         # (5) should_respect_ignores = !is_explicitly_provided || opt.respect_ignores
         g = prog.fn("stylua", "should_respect_ignores")
         if rep.anchor(g is not None, "should_respect_ignores", cfg):
